@@ -425,8 +425,14 @@ func countsSpace(v9 bool, tier string) mck.Space {
 		}
 		counts = append(counts, 2047, 2048, 2049, 4000, 4095, 4096, 4097)
 	}
-	modes := []string{"records", "fields", "sets", "templates", "varlen"}
+	modes := []string{"records", "fields", "sets", "templates", "varlen", "template-id", "field-length"}
 	dims := mck.Radix{uint64(len(modes)), uint64(len(counts)), 2}
+	var oct *flowh.Kind
+	for i, k := range kinds {
+		if k.F.Type == ref.TOctetArray && k.F.Len != 65535 && oct == nil {
+			oct = &kinds[i]
+		}
+	}
 	name := "ipfix"
 	if v9 {
 		name = "v9"
@@ -491,6 +497,42 @@ func countsSpace(v9 bool, tier string) mck.Space {
 				ks := []flowh.Kind{fixed[i%len(fixed)], fixed[(i+1)%len(fixed)]}
 				dsets = append(dsets, ref.Set{Kind: ref.SetData, TemplateID: uint16(256 + i), Records: []ref.Record{rec(ks, i)}})
 			}
+		case "template-id": // N is the template id itself: the smallest, the largest and those around the 15/16-bit boundaries
+			ids := map[int]bool{256: true, 257: true, 511: true, 512: true, 513: true, 1000: true, 1023: true, 1024: true, 1025: true, 4000: true}
+			id := n
+			switch n { // reuse the slots of the small counts for the large ids
+			case 1:
+				id = 32767
+			case 2:
+				id = 32768
+			case 3:
+				id = 65534
+			case 4:
+				id = 65535
+			case 7:
+				id = 16384
+			}
+			if !ids[n] && id == n {
+				c.Skip()
+				return
+			}
+			ks := []flowh.Kind{fixed[0], fixed[1%len(fixed)]}
+			t := ref.Template{ID: uint16(id), Fields: []ref.Field{ks[0].F, ks[1].F}}
+			tpls[t.ID] = t
+			tsets = []ref.Set{{Kind: ref.SetTemplates, Templates: []ref.Template{t}}}
+			dsets = []ref.Set{{Kind: ref.SetData, TemplateID: t.ID, Records: []ref.Record{rec(ks, 0), rec(ks, 1)}}}
+		case "field-length": // one fixed-length octet-array field of N octets in front of an integer
+			if oct == nil || n > 30000 {
+				c.Skip()
+				return
+			}
+			big := *oct
+			big.F.Len = uint16(n)
+			ks := []flowh.Kind{big, fixed[0]}
+			t := ref.Template{ID: 300, Fields: []ref.Field{big.F, fixed[0].F}}
+			tpls[300] = t
+			tsets = []ref.Set{{Kind: ref.SetTemplates, Templates: []ref.Template{t}}}
+			dsets = []ref.Set{{Kind: ref.SetData, TemplateID: 300, Records: []ref.Record{rec(ks, 0), rec(ks, 1)}}}
 		case "varlen":
 			if v9 || vstr == nil {
 				c.Skip()
